@@ -841,6 +841,10 @@ func vfSignWithRepo(cfg vfSigCfg, plan vfSigPlan, r vfC06Req, now time.Time) (*v
 	return &vfSigned{Cfg: cfg, Plan: plan, Req: out, Names: strings.Split(sc.SignedHeaders, ";")}, nil
 }
 
+// vfFutureMargin: Verify reads the wall clock after the request was signed, so a date that is
+// TTL+margin ahead at signing time is still more than TTL ahead when verified (a case takes ms).
+const vfFutureMargin = 60 * time.Second
+
 // vfPlanVerdict: a signature from a known access key (with its secret), within its TTL.
 func vfPlanVerdict(cfg vfSigCfg, p vfSigPlan) vfVerdict {
 	known := false
@@ -856,7 +860,14 @@ func vfPlanVerdict(cfg vfSigCfg, p vfSigPlan) vfVerdict {
 		return vfReject
 	}
 	if p.Age < 0 {
-		return vfEither // dated in the future: the statement does not say
+		// Dated in the future. More than the TTL ahead (plus the harness's wall-clock margin) is
+		// outside the TTL under every reading, also the lenient one that allows the TTL as clock
+		// skew in both directions: rejected. Less than that (or no TTL configured): the statement
+		// does not say.
+		if cfg.TTL > 0 && -p.Age >= cfg.TTL+vfFutureMargin {
+			return vfReject
+		}
+		return vfEither
 	}
 	if cfg.TTL > 0 && p.Age > cfg.TTL {
 		return vfReject
